@@ -1,8 +1,35 @@
-(* C02 -- generic JSON diff/patch round trip.  Statements only; proofs live in Diff/*Proofs.v. *)
+(* C02 -- generic JSON diff/patch round trip is exact, including value types.
+   Statements only; the proofs are in Diff/*Proofs.v.  O ranges over ALL similarity heuristics
+   (no hypothesis on o_sim) and all difflib outputs that form a valid edit script (opcodes_valid,
+   validated on every recorded call); generic_config is regenerated from /repo on every run
+   (Gen/NbConfig.v) and the proofs need its facts c_dict_strict = true, default predicate = strict_equals. *)
 From Coq Require Import List NArith.
-From NB Require Import Base.Json Base.PyStr.
+From NB Require Import Base.Res Base.Json Base.PyStr Diff.DiffFormat Diff.Patch Diff.GenericDiff Diff.Wf
+     Diff.StringProofs Diff.StringMaster Diff.MasterProofs Diff.C02Proofs Gen.NbConfig.
 Import ListNotations.
 
+(* patching a with diff(a, b) gives exactly b (strict JSON equality: bool/int/float distinct) *)
+Theorem generic_diff_patch_roundtrip : forall O n a b,
+  opcodes_valid O -> 2 * depth a < n -> wfj a = true -> wfj b = true -> same_container a b ->
+  exists d, diff_default O generic_config n a b = Ok d /\ (forall m, depth a < m -> patch m a d = Ok b).
+Proof. exact generic_roundtrip. Qed.
+Print Assumptions generic_diff_patch_roundtrip.
+
+(* the diff is empty only if the documents are identical *)
+Theorem generic_diff_empty_only_if_equal : forall O n a b,
+  opcodes_valid O -> 2 * depth a < n -> wfj a = true -> wfj b = true -> same_container a b ->
+  diff_default O generic_config n a b = Ok [] -> a = b.
+Proof. exact generic_empty_only_if_equal. Qed.
+Print Assumptions generic_diff_empty_only_if_equal.
+
+(* strings: line-based diff, flattened to characters by patch, reproduces the target; the line diff is well-formed *)
+Theorem string_diff_patch_roundtrip : forall O cfg, opcodes_valid O -> forall n m s t, 0 < n -> 1 < m ->
+  exists d, diff_strings_linewise O cfg n s t = Ok d /\ patch m (JStr s) d = Ok (JStr t)
+            /\ wf_lines (splitlines s) d = true.
+Proof. exact string_roundtrip. Qed.
+Print Assumptions string_diff_patch_roundtrip.
+
+(* str.splitlines(True) partitions the string *)
 Theorem splitlines_partition : forall s, concat (splitlines s) = s.
 Proof. exact splitlines_concat. Qed.
 Print Assumptions splitlines_partition.
